@@ -198,22 +198,26 @@ func formatEventsParseError(path string, lineNo int, line []byte, cause error) e
 }
 
 func appendEvents(path string, events []Event) error {
-	file, err := os.OpenFile(path, os.O_APPEND|os.O_CREATE|os.O_WRONLY, 0644)
-	if err != nil {
-		return err
-	}
-	defer file.Close()
+	// All events of one command go out in a single write(2): a process killed
+	// between two system calls must not leave only some of them in the log.
+	var buf []byte
 	for _, event := range events {
 		data, err := json.Marshal(event)
 		if err != nil {
 			return err
 		}
-		line := append(data, '\n')
-		if err := writeAll(file, line); err != nil {
-			return err
-		}
+		buf = append(buf, data...)
+		buf = append(buf, '\n')
 	}
-	return nil
+	file, err := os.OpenFile(path, os.O_APPEND|os.O_CREATE|os.O_WRONLY, 0644)
+	if err != nil {
+		return err
+	}
+	defer file.Close()
+	if len(buf) == 0 {
+		return nil
+	}
+	return writeAll(file, buf)
 }
 
 func writeEventsFile(path string, events []Event) error {
